@@ -576,18 +576,21 @@ Fixpoint grun (xg yg : list Z) (c : gcache) (h : list (Z * Z)) : list (list V * 
   end.
 End Grid.
 
-(* StarFinder._get_raw_catalog (detection/starfinder.py:95-116): the kernel attribute is
-   normalised IN PLACE on every call (kernel /= max(kernel)); DAOStarFinder and
-   IRAFStarFinder only read their configuration ([norm] = identity). *)
+(* StarFinder._get_raw_catalog (detection/starfinder.py:95-116).  Repaired code (fix C10-3,
+   [inplace = false]): a normalised COPY of the kernel attribute is used, the attribute is
+   only read.  Code as found ([inplace = true]): the attribute was normalised in place on
+   every call (kernel /= max(kernel)).  DAOStarFinder and IRAFStarFinder only read their
+   configuration ([norm] = identity). *)
 Section Finder.
 Variables K I R : Type.
 Variable norm : K -> K.            (* kernel / max(kernel) *)
 Variable find : K -> I -> R.       (* convolution, peak finding, catalog filters *)
-Definition sfcall (k : K) (img : I) : K * R := let k' := norm k in (k', find k' img).
-Fixpoint sfrun (k : K) (h : list I) : list (R * K) :=
+Definition sfcall (inplace : bool) (k : K) (img : I) : K * R :=
+  let k' := norm k in ((if inplace then k' else k), find k' img).
+Fixpoint sfrun (inplace : bool) (k : K) (h : list I) : list (R * K) :=
   match h with
   | [] => []
-  | i :: h' => let '(k1, r) := sfcall k i in (r, k1) :: sfrun k1 h'
+  | i :: h' => let '(k1, r) := sfcall inplace k i in (r, k1) :: sfrun inplace k1 h'
   end.
 End Finder.
 
@@ -696,7 +699,9 @@ Definition fp_step := pstep float PrimFloat.mul PrimFloat.div f_norm f_is_zero P
 Definition pop_of (z : Z) : pop :=
   match z with
   | 0 => PRead AProf | 1 => PRead AErr | 2 => PRead AData | 3 => PReadNV
-  | 4 => PNorm false | 5 => PNorm true | _ => PUnnorm
+  | 4 => PNorm false | 5 => PNorm true | 6 => PUnnorm
+  | _ => PRead AProf      (* >= 7: a public method that reads self.profile (calc_ee_at_radius,
+                             calc_radius_at_ee): same effect on the cache as a read of profile *)
   end%Z.
 (* observation: (op, exception code, returned array (reads) / [normalization_value]
    (PReadNV) / [] otherwise, normalization_value after the step,
@@ -710,7 +715,7 @@ Fixpoint pcheck (c : pcfg float) (s : pst float) (h : list pobsv) : bool :=
       let '(s1, ob) := fp_step false c s (pop_of o) in
       (match ob with
        | ORaise _ e => (exc =? e)%Z
-       | OArr _ l => (exc =? 0)%Z && flist_same l arr
+       | OArr _ l => (7 <=? o)%Z || ((exc =? 0)%Z && flist_same l arr)
        | OScalar _ x => (exc =? 0)%Z && flist_same [x] arr
        | ONone _ => (exc =? 0)%Z
        end)
@@ -798,17 +803,22 @@ Definition tefit (g : geo) (a : eargs) : term :=
 (* observation per call: (call id, linear (0 None / 1 False / 2 True), fc, fp, fe,
    result equals the fresh object's, geometry.linear_growth after, geometry.fix after) *)
 Definition eobsv := (Z * Z * bool * bool * bool * (bool * bool * list bool))%type.
-Fixpoint echeck (g0 g : geo) (h : list eobsv) : bool :=
+(* [lg] = which code the implementation is compared with: false = repaired (fixes/C09-4),
+   true = as found (Ellipse.fit_image:geometry-persists is a recorded known finding); for
+   the code as found only "the model says equal => observed equal" is required of the
+   value flag (two different geometries may happen to give equal fits) *)
+Fixpoint echeck (lg : bool) (g0 g : geo) (h : list eobsv) : bool :=
   match h with
   | [] => true
   | (id, lin, fc, fp, fe, (eqf, lin_after, fix_after)) :: h' =>
       let a := {| e_id := id; e_linear := if (lin =? 0)%Z then None else Some (lin =? 2)%Z;
                   e_fc := fc; e_fp := fp; e_fe := fe |} in
-      let '(g1, r) := ecall term tefit (Atom 49) false g a in
-      let fresh := snd (ecall term tefit (Atom 49) false g0 a) in
+      let '(g1, r) := ecall term tefit (Atom 49) lg g a in
+      let fresh := snd (ecall term tefit (Atom 49) lg g0 a) in
       let '(f1, f2, f3, f4) := g_fix g1 in
-      Bool.eqb eqf (term_eqb r fresh) && Bool.eqb lin_after (g_lin g1)
-      && list_eqb Bool.eqb [f1; f2; f3; f4] fix_after && echeck g0 g1 h'
+      (if lg then implb (term_eqb r fresh) eqf else Bool.eqb eqf (term_eqb r fresh))
+      && Bool.eqb lin_after (g_lin g1)
+      && list_eqb Bool.eqb [f1; f2; f3; f4] fix_after && echeck lg g0 g1 h'
   end.
 
 (* --- (d) GriddedPSFModel --- *)
@@ -831,7 +841,7 @@ Inductive case :=
 | CProf (pr er : list zf) (dr : option (list zf)) (h : list pobsv)
 | CAper (lazy_ext lazy_area : bool) (h : list aobsv)
 | CPsf (finder grouper : bool) (h : list psobsv)
-| CEll (lin0 : bool) (fix0 : list bool) (h : list eobsv)
+| CEll (legacy : bool) (lin0 : bool) (fix0 : list bool) (h : list eobsv)
 | CGrid (xg yg : list Z) (h : list gobsv).
 
 Definition geo_of (lin : bool) (fx : list bool) : geo :=
@@ -847,7 +857,7 @@ Definition check_case (c : case) : bool :=
   | CPsf finder grouper h =>
       let g0 := if grouper then Some 1%Z else None in
       pscheck {| ps_finder := finder |} g0 (psinit Z term g0) h
-  | CEll lin0 fix0 h => let g0 := geo_of lin0 fix0 in echeck g0 g0 h
+  | CEll lg lin0 fix0 h => let g0 := geo_of lin0 fix0 in echeck lg g0 g0 h
   | CGrid xg yg h => gcheck xg yg [] h
   end.
 
